@@ -354,8 +354,10 @@ def fam_pool(rng, pid):
         r = rng.random()
         if r < 0.5:
             ops.append({'op': 'TunePool', 'n': rng.choice([1, 2, 3, 4])})
-        elif r < 0.7:
+        elif r < 0.62:
             ops += [{'op': 'Stop'}, {'op': 'Restart'}]
+        elif r < 0.72:
+            ops += [{'op': rng.choice(['Pause', 'PauseAndWait'])}, {'op': 'Restart'}, {'op': 'NumIdle'}]
         elif r < 0.8:
             ops += [{'op': 'Restart'}]
         else:
@@ -535,7 +537,11 @@ def fam_tune(rng, pid):
     b.client('c1', ops)
     # the controller shrinks the pool as soon as the first burst is through, while c1 submits again
     # ... then widens it again and submits a second burst (a pool node damaged by the shrink is used again here)
-    b.client('ctl', [{'op': 'Wait', 'job': last}, {'op': 'TunePool', 'n': rng.choice([1, 1, 2])}, {'op': 'NumIdle'}, {'op': 'TunePool', 'n': conc}]
+    stay_low = rng.random() < 0.4
+    if stay_low:
+        # ... or the pool stays small and idle workers expire: the remover has to trim down to the new limit's share
+        cfg['expiry_us'] = rng.choice([200, 500])
+    b.client('ctl', [{'op': 'Wait', 'job': last}, {'op': 'TunePool', 'n': rng.choice([1, 1, 2])}, {'op': 'NumIdle'}] + ([] if stay_low else [{'op': 'TunePool', 'n': conc}])
              + [b.add(0, pr) for _ in range(conc + rng.choice([1, 2]))] + [{'op': 'WUF'}, {'op': 'NumProcessing'}])
     if rng.random() < 0.4:
         b.client('c2', [b.add(0, pr) for _ in range(rng.choice([1, 2]))])
